@@ -1,18 +1,23 @@
 package channelid
 
 import (
+	"hash/crc32"
+
 	"github.com/WuKongIM/WuKongIM/internal/zzsym"
 )
 
 // ---------------------------------------------------------------- helpers (specification side)
 
+func c35MaxUID() int {
+	if zzsym.Thorough() {
+		return 4
+	}
+	return 3
+}
+
 // c35UID returns a symbolic UID of every length 0..3 (thorough 0..4) over all 256 byte values.
 func c35UID(name string) string {
-	max := 3
-	if zzsym.Thorough() {
-		max = 4
-	}
-	n := zzsym.Choice(name+".len", max+1)
+	n := zzsym.Choice(name+".len", c35MaxUID()+1)
 	return zzsym.String(name, n)
 }
 
@@ -41,6 +46,10 @@ func c35Sum(s string) uint64 {
 	return h
 }
 
+// c35CRC is the checksum EncodePersonChannel orders by; observed so that the native self-test compares the
+// engine's CRC-32 model with the real hash/crc32 on every sample.
+func c35CRC(s string) uint64 { return uint64(crc32.ChecksumIEEE([]byte(s))) }
+
 // ---------------------------------------------------------------- person channels
 
 // Harness_C35_PersonSymmetric: the person channel id does not depend on who sends, for every pair of UIDs
@@ -51,13 +60,32 @@ func Harness_C35_PersonSymmetric() {
 	ab := EncodePersonChannel(a, b)
 	ba := EncodePersonChannel(b, a)
 	zzsym.Reach("encoded")
-	if a == b {
-		zzsym.Reach("equal-uids")
-	}
 	zzsym.Assert(ab == ba, "EncodePersonChannel(a,b) != EncodePersonChannel(b,a)")
 	// the id is one of the two concatenations, nothing else
 	zzsym.Assert(ab == a+"@"+b || ab == b+"@"+a, "EncodePersonChannel is not a concatenation of the two uids around the separator")
-	zzsym.Observe("id", c35Sum(ab), c35Sum(ba))
+	zzsym.Observe("id", c35Sum(ab), c35Sum(ba), c35CRC(a), c35CRC(b))
+}
+
+// Harness_C35_PersonCollision: the CRC tie-break on real CRC-32 collisions (concrete, well-known colliding
+// words; within the symbolic bounds of the quick tier no two distinct uids share a CRC).
+func Harness_C35_PersonCollision() {
+	pairs := [][2]string{{"plumless", "buckeroo"}, {"buckeroo", "plumless"}}
+	for _, p := range pairs {
+		a, b := p[0], p[1]
+		if crc32.ChecksumIEEE([]byte(a)) != crc32.ChecksumIEEE([]byte(b)) {
+			return // not a collision: the witness below stays unreached and the check reports vacuity
+		}
+		ab := EncodePersonChannel(a, b)
+		ba := EncodePersonChannel(b, a)
+		zzsym.Reach("real-crc-collision")
+		zzsym.Assert(ab == ba, "EncodePersonChannel is not symmetric on a CRC-32 collision")
+		l, r, err := DecodePersonChannel(ab)
+		zzsym.Assert(err == nil && c35SamePair(l, r, a, b), "colliding uids do not decode to the encoded pair")
+		na, erra := NormalizePersonChannel(a, ba)
+		nb, errb := NormalizePersonChannel(b, a+"@"+b)
+		zzsym.Assert(erra == nil && errb == nil && na == ab && nb == ab, "normalization is not canonical on a CRC-32 collision")
+		zzsym.Observe("coll", c35Sum(ab), c35Sum(ba))
+	}
 }
 
 // Harness_C35_PersonDecode: decoding the canonical id yields the two users; with '@' (or an empty uid)
@@ -65,9 +93,9 @@ func Harness_C35_PersonSymmetric() {
 func Harness_C35_PersonDecode() {
 	a := c35UID("a")
 	b := c35UID("b")
+	clean := a != "" && b != "" && c35CountSep(a) == 0 && c35CountSep(b) == 0
 	id := EncodePersonChannel(a, b)
 	l, r, err := DecodePersonChannel(id)
-	clean := a != "" && b != "" && c35CountSep(a) == 0 && c35CountSep(b) == 0
 	if clean {
 		zzsym.Reach("clean-uids")
 		zzsym.Assert(err == nil, "canonical id of two well-formed uids does not decode")
@@ -87,7 +115,7 @@ func Harness_C35_PersonDecode() {
 }
 
 // Harness_C35_NormalizeCanonical: normalizing an already canonical id changes nothing, for either member,
-// and normalizing the peer's bare uid gives the same canonical id.
+// either order of the two uids normalizes to the canonical id, and so does the peer's bare uid.
 func Harness_C35_NormalizeCanonical() {
 	a := c35UID("a")
 	b := c35UID("b")
@@ -110,7 +138,7 @@ func Harness_C35_NormalizeCanonical() {
 }
 
 // Harness_C35_NormalizeGate: NormalizePersonChannel(s, id) succeeds only if s and id are non-empty and either
-// id has no separator or id is exactly two non-empty parts one of which is s; and exactly then.
+// id has no separator or id is exactly two non-empty parts one of which is s; and in exactly those cases.
 func Harness_C35_NormalizeGate() {
 	s := c35UID("s")
 	max := 5
@@ -119,21 +147,23 @@ func Harness_C35_NormalizeGate() {
 	}
 	n := zzsym.Choice("id.len", max+1)
 	id := zzsym.String("id", n)
-	out, err := NormalizePersonChannel(s, id)
 
+	// specification, evaluated before the code under test runs
 	seps := c35CountSep(id)
+	// bare ids (no separator) longer than a uid are outside the bound: they only feed EncodePersonChannel
+	zzsym.Assume(seps > 0 || n <= c35MaxUID())
 	member := false
-	wellFormed := false
+	left, right := "", ""
 	if seps == 1 {
 		for i := 0; i < len(id); i++ {
 			if id[i] == '@' {
-				left, right := id[:i], id[i+1:]
-				wellFormed = left != "" && right != ""
-				member = wellFormed && (left == s || right == s)
+				left, right = id[:i], id[i+1:]
+				member = left != "" && right != "" && (left == s || right == s)
 			}
 		}
 	}
 	allowed := s != "" && id != "" && (seps == 0 || member)
+	out, err := NormalizePersonChannel(s, id)
 	if err == nil {
 		zzsym.Reach("accepted")
 		zzsym.Assert(allowed, "NormalizePersonChannel accepted a sender that is not part of the person channel")
@@ -142,6 +172,7 @@ func Harness_C35_NormalizeGate() {
 			zzsym.Assert(out == EncodePersonChannel(s, id), "bare peer uid not normalized to the canonical id")
 		} else {
 			zzsym.Reach("accepted-member")
+			zzsym.Assert(out == EncodePersonChannel(left, right), "member id not normalized to the canonical id of its two parts")
 		}
 	} else {
 		zzsym.Reach("rejected")
@@ -190,9 +221,9 @@ func Harness_C35_Command() {
 func Harness_C35_Agent() {
 	u := c35UID("u")
 	a := c35UID("a")
+	clean := u != "" && a != "" && c35CountSep(u) == 0 && c35CountSep(a) == 0
 	id := EncodeAgentChannel(u, a)
 	gu, ga, err := DecodeAgentChannel(id)
-	clean := u != "" && a != "" && c35CountSep(u) == 0 && c35CountSep(a) == 0
 	if clean {
 		zzsym.Reach("clean-agent")
 		zzsym.Assert(err == nil, "agent channel of two well-formed uids does not decode")
